@@ -80,8 +80,12 @@ pub struct Workspace {
     pub shards: usize,
 }
 
+/// suffix that keeps concurrently running tiers (quick / thorough / replay) in separate workspaces
+pub static WS_SUFFIX: std::sync::OnceLock<String> = std::sync::OnceLock::new();
+
 impl Workspace {
     pub fn new(name: &str, kind: Kind, shards: usize) -> Workspace {
+        let name = &format!("{}{}", name, WS_SUFFIX.get().map(|s| s.as_str()).unwrap_or(""));
         let dir = Path::new(VERIF_DIR).join("work").join("ws").join(format!("{}_{}", name, if kind == Kind::Fake { "fake" } else { "real" }));
         Workspace { kind, name: name.to_lowercase(), dir, shards }
     }
